@@ -369,6 +369,9 @@ ALPHABET_POOL = {
     "I3": "module m\ninteger :: sin\nend module q\n",
     "I4": "subroutine s\nreal :: cos(2)\nx = cos(1) +\nend subroutine s\n",
     "I5": "subroutine s\nreal :: max(3)\ny = sin(1.0, 2.0)\nend subroutine s\n",
+    # re-enters the table (and the USE entry) that MULTI_USE leaves for us2, adds to both, fails
+    "I6": "subroutine us2\nuse um, only: sum, lz => b\ninteger :: extra\nx = = 2\n"
+          "end subroutine us2\n",
     "V5": KITCHEN_SINK,
     "X4": KITCHEN_SINK,
     "V6": KITCHEN_SINK_08,
@@ -399,7 +402,7 @@ ALPHABET_POOL = {
           "end subroutine tw\n",
 }
 ALPHABET = ["c03", "c08", "V1", "V2", "V3", "V4", "V5", "V6", "V7", "V8", "V9", "I1", "I2", "I3", "I4",
-            "I5", "Fa", "Fb", "Ba", "Db", "Wb"]
+            "I5", "I6", "Fa", "Fb", "Ba", "Db", "Wb"]
 for _k, _t in enumerate(F08_ONLY):
     ALPHABET_POOL["N%d" % _k] = _t
 # the fixed file system of the alphabet: two directories whose main files INCLUDE a file of the
